@@ -150,6 +150,12 @@ def _group_task(task):
         for x in C.pattern_scalars(inst.q, 1 if inst.ref.esize <= 128 else 0):
             if x not in sc:
                 sc.append(x)
+        # multiples of Base whose ENCODING has a distinguished byte at every position / shares leading bytes with the modulus
+        pm = C.element_pattern_multiples(inst.ref, 1 if inst.ref.esize <= 128 else 0)
+        for k in sorted(set(pm.values())):
+            if k not in sc:
+                sc.append(k)
+        acc.extra.setdefault("element_pattern_classes", {})[name] = len(pm)
         _group_codecs(inst, sc, acc, False)
     return acc
 
